@@ -172,7 +172,7 @@ def storage_config_sweep(rep, tier, rng, root, viol):
 def run_c06(rep, tier, seed):
     rng = random.Random(seed * 1000 + 6)
     ncases = 120 if tier == "quick" else 1200
-    root = os.path.join(WORK, "run-C06")
+    root = os.path.join(RUNS, "run-C06")
     impl_lines = ["srv.start max=64 mfs=300"]
     model_lines = ["srv.start"]
     cases = []        # (kind, first impl line, n impl lines, model line index, reqs)
@@ -474,7 +474,7 @@ def hostile_streams(rng, tier):
 
 def run_c10(rep, tier, seed):
     rng = random.Random(seed * 1000 + 10)
-    root = os.path.join(WORK, "run-C10")
+    root = os.path.join(RUNS, "run-C10")
     hostile = hostile_streams(rng, tier)
     impl_lines = ["srv.start max=8 mfs=300", "c.open ctl"]
     model_lines = ["srv.start", "#"]
@@ -721,7 +721,7 @@ GET_PROBE = req_bytes(("GET", b"probe-key")).hex()
 
 def run_c15(rep, tier, seed):
     rng = random.Random(seed * 1000 + 15)
-    root = os.path.join(WORK, "run-C15")
+    root = os.path.join(RUNS, "run-C15")
     nscen = 4 if tier == "quick" else 30
     nv = 0
     for sc in range(nscen):
@@ -1084,7 +1084,7 @@ def binary_shutdown(rep, root):
 
 def run_c16(rep, tier, seed):
     rng = random.Random(seed * 1000 + 16)
-    root = os.path.join(WORK, "run-C16")
+    root = os.path.join(RUNS, "run-C16")
     nv = 0
     SET = lambda k, v: req_bytes(("SET", k, v)).hex()
     GET = lambda k: req_bytes(("GET", k)).hex()
@@ -1202,7 +1202,7 @@ def run_c16(rep, tier, seed):
 def run_c11(rep, tier, seed):
     from p_conc import check_history
     rng = random.Random(seed * 1000 + 11)
-    root = os.path.join(WORK, "run-C11")
+    root = os.path.join(RUNS, "run-C11")
     nruns = 8 if tier == "quick" else 80
     nv = 0
     for ri in range(nruns):
